@@ -8,6 +8,8 @@ The result is a finite table [(intervals of x, returned abstract value)] that a 
 states.  No solver, no execution: comparisons are decided on intervals, arithmetic is on the coefficients of affine forms.
 Anything outside the fragment makes the value `unknown` (never a verdict by itself).
 """
+import re
+
 from . import mir
 
 UNKNOWN = ("unknown",)
@@ -164,6 +166,12 @@ def summarize(fn, param_local, lo_dom, hi_dom, max_paths=400):
                     stack.append((tm.get(0, t["otherwise"]), ivs, env, visits))
                 elif inner[0] == "some":
                     stack.append((tm.get(1, t["otherwise"]), ivs, env, visits))
+                elif inner[0] == "optcmp":
+                    # Some exactly where the condition holds (`x.checked_sub(c)`: where x >= c)
+                    _, (op, (a, b0), c0), _payload = inner
+                    tr, fa = _cmp_split(op, a, b0, c0, ivs, lo_dom, hi_dom)
+                    stack.append((tm.get(1, t["otherwise"]), tr, env, visits))
+                    stack.append((tm.get(0, t["otherwise"]), fa, env, visits))
                 else:
                     raise NotInFragment("switch on an unknown discriminant")
             else:
@@ -198,6 +206,9 @@ def _eval_op(op, env):
                 v = v[3].get(p[1], UNKNOWN)
             elif v[0] == "some" and p[1] == "0":
                 v = v[1]
+            elif v[0] == "optcmp" and p[1] == "0":
+                # read behind the Some edge of the switch that split on the condition
+                v = v[2]
             else:
                 v = UNKNOWN
         else:
@@ -264,7 +275,7 @@ def _eval_rv(rv, env):
         return UNKNOWN
     if k == "discr":
         v = _eval_op({"cp": rv["pl"]}, env)
-        if v[0] in ("none", "some"):
+        if v[0] in ("none", "some", "optcmp"):
             return ("discr_of", v)
         return UNKNOWN
     return UNKNOWN
@@ -274,8 +285,15 @@ def _eval_call(t, env):
     c = t.get("callee") or ""
     if c in ("std::convert::From::from", "std::convert::Into::into", "std::clone::Clone::clone") and t["args"]:
         v = _eval_op(t["args"][0], env)
-        if is_aff(v) or v[0] in ("none", "some"):
+        if is_aff(v) or v[0] in ("none", "some", "optcmp"):
             return v
+    last = c.split("::")[-1]
+    if last in ("checked_sub", "checked_add") and re.match(r"^core::num::<impl [ui]\d+|^core::num::<impl [ui]size", c) and len(t["args"]) == 2:
+        a, b = _eval_op(t["args"][0], env), _eval_op(t["args"][1], env)
+        if is_aff(a) and is_aff(b) and b[1] == 0 and last == "checked_sub" and c.startswith("core::num::<impl u"):
+            # unsigned x.checked_sub(c): Some(x - c) exactly where x - c >= 0
+            d = aff(a[1] - b[1], a[2] - b[2])
+            return ("optcmp", ("Ge", (d[1], d[2]), 0), d)
     return UNKNOWN
 
 
